@@ -70,7 +70,7 @@ pub fn epush8_noreplace(enc_: &mut Encoder, kind: usize, src: &str, last: bool, 
         after_call(run, enc_);
         match res {
             EncoderResult::InputEmpty => { check(pos == src.len(), 102); if last { run.finished = true; } return; }
-            EncoderResult::OutputFull => { run.output_full_seen = true; if run.min_progress { check(read > 0 || written > 0, 104); } }
+            EncoderResult::OutputFull => { run.output_full_seen = true; if run.stall_ok && read == 0 && written == 0 { run.stalled = true; return; } if run.min_progress { check(read > 0 || written > 0, 104); } }
             EncoderResult::Unmappable(c) => { run.log.push(K_ERR, c as u32, run.total_read as u32); run.had_errors = true; }
         }
         check(run.calls < run.max_calls, 103);
@@ -95,7 +95,7 @@ pub fn epush16_noreplace(enc_: &mut Encoder, kind: usize, src: &[u16], last: boo
         after_call(run, enc_);
         match res {
             EncoderResult::InputEmpty => { check(pos == src.len(), 102); if last { run.finished = true; } return; }
-            EncoderResult::OutputFull => { run.output_full_seen = true; if run.min_progress { check(read > 0 || written > 0, 104); } }
+            EncoderResult::OutputFull => { run.output_full_seen = true; if run.stall_ok && read == 0 && written == 0 { run.stalled = true; return; } if run.min_progress { check(read > 0 || written > 0, 104); } }
             EncoderResult::Unmappable(c) => { run.log.push(K_ERR, c as u32, run.total_read as u32); run.had_errors = true; }
         }
         check(run.calls < run.max_calls, 103);
@@ -135,7 +135,7 @@ pub fn epush8_replace(enc_: &mut Encoder, kind: usize, src: &str, last: bool, ru
         after_call(run, enc_);
         match res {
             CoderResult::InputEmpty => { check(pos == src.len(), 102); if last { run.finished = true; } return; }
-            CoderResult::OutputFull => { run.output_full_seen = true; if run.min_progress { check(read > 0 || written > 0, 104); } }
+            CoderResult::OutputFull => { run.output_full_seen = true; if run.stall_ok && read == 0 && written == 0 { run.stalled = true; return; } if run.min_progress { check(read > 0 || written > 0, 104); } }
         }
         check(run.calls < run.max_calls, 103);
     }
@@ -160,7 +160,7 @@ pub fn epush16_replace(enc_: &mut Encoder, kind: usize, src: &[u16], last: bool,
         after_call(run, enc_);
         match res {
             CoderResult::InputEmpty => { check(pos == src.len(), 102); if last { run.finished = true; } return; }
-            CoderResult::OutputFull => { run.output_full_seen = true; if run.min_progress { check(read > 0 || written > 0, 104); } }
+            CoderResult::OutputFull => { run.output_full_seen = true; if run.stall_ok && read == 0 && written == 0 { run.stalled = true; return; } if run.min_progress { check(read > 0 || written > 0, 104); } }
         }
         check(run.calls < run.max_calls, 103);
     }
